@@ -392,7 +392,7 @@ def tree_cases(prop, tier, hibernation_values=(False,), extra=None):
     add("step.ea-ea-cma.terrace", kinds=["ea", "ea", "cma"], shape=[[0, 0], [0]], generations=1, L=2, hibernation=hibernation_values[0], objective="terrace",
         deme_filters="none")
     # the other SEA-family engines as root / intermediate levels
-    for kinds in ((("ga", "cma"), ("mwea", "cma")) if tier == "quick" else (("ga", "cma"), ("mwea", "cma"), ("sea-xover", "de"), ("sea-adaptive", "cma"), ("ea", "ga", "cma"))):
+    for kinds in ((("ga", "cma"), ("mwea", "cma"), ("sea-xover", "cma")) if tier == "quick" else (("ga", "cma"), ("mwea", "cma"), ("sea-xover", "de"), ("sea-adaptive", "cma"), ("ea", "ga", "cma"))):
         shape = [[0]] if len(kinds) == 2 else [[0], [0]]
         add(f"step.{'-'.join(kinds)}.variant", kinds=list(kinds), shape=shape, generations=2, L=2, hibernation=hibernation_values[0])
     # shipped local stop condition reading the deme's own history (symbolic limit)
